@@ -442,14 +442,14 @@ func (m *monC08) Event(ev *hermes.VerifEvent, rc *RunCtx) {
 			if g.ETMETH == 2 && g.TEMP[g.TAG.Index] < -22 {
 				sig = "negative_petp_turc"
 			}
-			rc.Violate("C08", sig, fmt.Sprintf("potential evapotranspiration %.17g cm is negative (method %d, T=%.1f)", etp, g.ETMETH, g.TEMP[g.TAG.Index]), ev.Zeit, 0, map[string]float64{"etp": etp, "temp": g.TEMP[g.TAG.Index]})
+			rc.Violate("C08", sig, fmt.Sprintf("potential evapotranspiration %.17g cm is negative or not a number (method %d, T=%.1f)", etp, g.ETMETH, g.TEMP[g.TAG.Index]), ev.Zeit, 0, map[string]float64{"etp": etp, "temp": g.TEMP[g.TAG.Index]})
 		}
 		if !(g.ETA >= -eps) {
 			sig := "negative_actual_evaporation"
 			if g.ETMETH == 2 && g.TEMP[g.TAG.Index] < -22 {
 				sig = "negative_petp_turc"
 			}
-			rc.Violate("C08", sig, fmt.Sprintf("actual evaporation %.17g cm is negative", g.ETA), ev.Zeit, 0, nil)
+			rc.Violate("C08", sig, fmt.Sprintf("actual evaporation %.17g cm is negative or not a number", g.ETA), ev.Zeit, 0, nil)
 		}
 		capv := 0.6
 		if m.cropped {
